@@ -543,6 +543,8 @@ def family(prop, t, sd):
         g = gen.RandGen(77 + (sd if t == 'thorough' else 0), consts=gen.CONST + [1.9, 0.1, 1 / 3, -0.7, 2.4], muls=gen.MULS + [1.9, 3, -0.3, 0.1], divs=gen.DIVS + [3, 1.9, -0.7])
         n = 1500 if t == 'quick' else 20000
         items += [{'fam': 'Mfloat', 'profile': 'nondyadic', 'model': g.gen_model(maxd=2)} for _ in range(n)]
+    if prop == 'C07':
+        items += integer_rounding_family(t)
     lim = os.environ.get('VERIF_LIMIT')
     if lim:
         step = max(1, len(items) // int(lim))
@@ -550,6 +552,30 @@ def family(prop, t, sd):
     for i, it in enumerate(items):
         it['idx'] = i
     return items
+
+
+def integer_rounding_family(t):
+    """integer variables bounded through rows scaled by non-dyadic coefficients: the propagated bound c*k*(1/c)
+    lands an ulp above or below the integer k it stands for, on the lower and on the upper side, for every
+    comparison, both signs of the coefficient, directly and through a chained row"""
+    out = []
+    coefs = [1.8, 1.9, 0.1, 0.3, 0.7, 1.1, 2.4, 3.3, 5.4, 0.6] if t == 'quick' else [1.8, 1.9, 0.1, 0.3, 0.7, 1.1, 2.4, 3.3, 5.4, 0.6, 0.2, 1.3, 4.9, 7.7, 0.9, 2.7]
+    D = gen.D
+    for c in coefs:
+        for k in range(-4, 5):
+            for cmp_ in ('<=', '>=', '='):
+                for sign in (1, -1):
+                    lhs = ['*', gen.num(sign * c), gen.var('x')]
+                    rhs = gen.num(sign * c * k)   # the float product, as a user would compute it, or ...
+                    rhs2 = gen.num(float('%.10g' % (sign * c * k)))   # ... the decimal product as a user would write it
+                    for r in (rhs, rhs2):
+                        doms = {'x': D('Int', -6, 6), 'y': D('Int', -9, 9)}
+                        out.append({'fam': 'Mint-round', 'profile': 'nondyadic', 'model': gen.mk_model('min', gen.var('x'), [gen.row(lhs, cmp_, r)], doms)})
+                    if k % 3 == 0:
+                        doms = {'x': D('Int', -6, 6), 'y': D('Int', -9, 9)}
+                        chain = [gen.row(lhs, cmp_, rhs2), gen.row(['-', gen.var('y'), gen.var('x')], '>=', gen.num(0))]
+                        out.append({'fam': 'Mint-round', 'profile': 'nondyadic', 'model': gen.mk_model('min', ['+', gen.var('x'), gen.var('y')], chain, doms)})
+    return out
 
 
 def main(prop):
